@@ -192,9 +192,16 @@ def r19b(model, ctx):
     ok = len(loops) == 1
     if ok:
         b = loops[0].body
-        ok = len(b) == 2 and isinstance(b[0], ast.If) and unparse(b[0].test) == "phys_name in self._phys_reqd" and \
-            isinstance(b[0].body[-1], ast.Raise) and "ResourceError" in unparse(b[0].body[-1]) and \
-            unparse(b[1]) == "self._phys_reqd[phys_name] = path"
+        # locals read from the table before the test (prev = self._phys_reqd.get(phys_name)); owners are path tuples, never None
+        pre = {x.targets[0].id: unparse(x.value) for x in b[:-2] if isinstance(x, ast.Assign) and len(x.targets) == 1 and
+               isinstance(x.targets[0], ast.Name)}
+        tst = b[-2] if len(b) >= 2 else None
+        clash = isinstance(tst, ast.If) and (unparse(tst.test) == "phys_name in self._phys_reqd" or any(
+            unparse(tst.test) == f"{k} is not None" and v in ("self._phys_reqd.get(phys_name)", "self._phys_reqd.get(phys_name, None)")
+            for k, v in pre.items()))
+        ok = len(b) == 2 + len(pre) and clash and not tst.orelse and \
+            isinstance(tst.body[-1], ast.Raise) and "ResourceError" in unparse(tst.body[-1]) and \
+            unparse(b[-1]) == "self._phys_reqd[phys_name] = path"
     ctx.check(ok, R, "resolve:pin-clash", "every physical pin is tested against _phys_reqd before it is allocated",
               "for every physical pin name the clash test (raise ResourceError) must precede its allocation in _phys_reqd",
               f"{RES}:{fr.lineno}")
